@@ -99,9 +99,9 @@ def ISchema.addColumn {d} (s : ISchema d) (t : Name) (n : TName d) (notNull : Bo
   | .error e => .error e
 
 def ISchema.addIndex {d} (s : ISchema d) (t : Name) (arg : IdxArg) (cols : List Name) (isPk : PkKind)
-    (isUnique : Option Bool) (m2m : Bool) : Except Err (MSchema s) :=
+    (isUnique : Option Bool) (m2m : Bool) : Except Err { s' : MSchema s // HasIdx s'.1.1 t cols isPk (isUnique.getD false) } :=
   match h : Schema.addIndex d s.1 t arg cols isPk isUnique m2m with
-  | .ok s' => .ok ⟨⟨s', addIndex_inv s.2.1 h, addIndex_lenInv s.2.2 h⟩, addIndex_mono h⟩
+  | .ok s' => .ok ⟨⟨⟨s', addIndex_inv s.2.1 h, addIndex_lenInv s.2.2 h⟩, addIndex_mono h⟩, addIndex_has h⟩
   | .error e => .error e
 
 def ISchema.addFk {d} (s : ISchema d) (child : Name) (fkName : Option Name) (cols : List Name) (parent : Name)
@@ -136,6 +136,16 @@ structure PlacedFk where
   parentCols : List Name
   deriving Repr
 
+/-- log entry: `add_index` was called for entity `ent` on `table(cols)` (primary key of the entity / link table, a
+    declared unique or plain index, an attribute index) -/
+structure PlacedIdx where
+  table : Name
+  ent : Name
+  cols : List Name
+  isPk : PkKind
+  unique : Bool
+  deriving Repr
+
 structure St (d : Dialect) where
   schema : ISchema d
   cols : List (Key × List (TName d)) := []      -- assignments to `attr.columns` (latest first)
@@ -148,8 +158,10 @@ structure St (d : Dialect) where
       `add_foreign_key` was called with for each relationship attribute -/
   placed : List Placed := []
   linked : List PlacedFk := []
+  indexed : List PlacedIdx := []
   placedOk : ∀ p ∈ placed, ∀ c ∈ p.cols, HasCol schema.1 p.table c p.notNull := by intro p hp; cases hp
   linkedOk : ∀ p ∈ linked, HasFk schema.1 p.child p.cols p.parent p.parentCols := by intro p hp; cases hp
+  indexedOk : ∀ p ∈ indexed, HasIdx schema.1 p.table p.cols p.isPk p.unique := by intro p hp; cases hp
 
 def lookup {α β} [BEq α] (k : α) : List (α × β) → Option β
   | [] => none
@@ -183,7 +195,8 @@ def err {α} (cls tag : String) : Except Err α := .error ⟨cls, tag⟩
 def St.setSchema {d} (st : St d) (m : MSchema st.schema) : St d :=
   { st with schema := m.1,
             placedOk := fun p hp c hc => m.2.cols _ _ _ (st.placedOk p hp c hc),
-            linkedOk := fun p hp => (st.linkedOk p hp).mono m.2 }
+            linkedOk := fun p hp => (st.linkedOk p hp).mono m.2,
+            indexedOk := fun p hp => (st.indexedOk p hp).mono m.2 }
 
 /-- successor schema in which the columns `cols` have just been added to `table`: log them -/
 def St.place {d} (st : St d) (table ent attr : Name) (nn : Bool) (cols : List (TName d))
@@ -196,7 +209,8 @@ def St.place {d} (st : St d) (table ent attr : Name) (nn : Bool) (cols : List (T
                 obtain ⟨x, hx, rfl⟩ := hc
                 exact m.2 x hx
               · exact m.1.2.cols _ _ _ (st.placedOk p hp c hc),
-            linkedOk := fun p hp => (st.linkedOk p hp).mono m.1.2 }
+            linkedOk := fun p hp => (st.linkedOk p hp).mono m.1.2,
+            indexedOk := fun p hp => (st.indexedOk p hp).mono m.1.2 }
 
 /-- successor schema in which a foreign key has just been added: log it -/
 def St.link {d} (st : St d) (ent attr child : Name) (cols : List Name) (parent : Name) (parentCols : List Name)
@@ -207,7 +221,20 @@ def St.link {d} (st : St d) (ent attr child : Name) (cols : List Name) (parent :
               intro p hp
               rcases List.mem_cons.mp hp with rfl | hp
               · exact m.2
-              · exact (st.linkedOk p hp).mono m.1.2 }
+              · exact (st.linkedOk p hp).mono m.1.2,
+            indexedOk := fun p hp => (st.indexedOk p hp).mono m.1.2 }
+
+/-- successor schema in which `add_index` has just succeeded: log the index -/
+def St.index {d} (st : St d) (table ent : Name) (cols : List Name) (isPk : PkKind) (uniq : Bool)
+    (m : { s' : MSchema st.schema // HasIdx s'.1.1 table cols isPk uniq }) : St d :=
+  { st with schema := m.1.1, indexed := ⟨table, ent, cols, isPk, uniq⟩ :: st.indexed,
+            placedOk := fun p hp c hc => m.1.2.cols _ _ _ (st.placedOk p hp c hc),
+            linkedOk := fun p hp => (st.linkedOk p hp).mono m.1.2,
+            indexedOk := by
+              intro p hp
+              rcases List.mem_cons.mp hp with rfl | hp
+              · exact m.2
+              · exact (st.indexedOk p hp).mono m.1.2 }
 
 /-- `get_default_column_names` with provenance -/
 def defaultColumnTNames (d : Dialect) (attr : Name) : Option (List Name) → List (TName d)
@@ -397,7 +424,7 @@ def processM2m (D : Decls) (d : Dialect) (fuel : Nat) (st : St d) (e : Entity) (
                   match st.schema.addIndex tn.n .none ((tableCols st.schema.1 tn.n).map (·.name)) .yes none false with
                   | .error x => .error x
                   | .ok sch =>
-                    let st := st.setSchema sch
+                    let st := st.index tn.n e.name ((tableCols st.schema.1 tn.n).map (·.name)) .yes false sch
                     .ok (st.setSchema (st.schema.markM2m tn.n))
 
 /-- one attribute in the first loop of `generate_mapping` -/
@@ -477,12 +504,14 @@ def processEntity1 (D : Decls) (d : Dialect) (fuel : Nat) (st : St d) (e : Entit
             if pkc.length == 1 && (match e.pkAttrs.head? with
                                     | some an => (match findAttr D e.root an with | some a => a.auto | none => false)
                                     | none => false) then .auto else .yes
-          let sch : Except Err (MSchema st.schema) :=
-            if pkSet then .ok ⟨st.schema, Mono.refl _⟩ else st.schema.addIndex tn.n .none (names pkc) isPk none false
-          match sch with
+          let st1 : Except Err (St d) :=
+            if pkSet then .ok st
+            else match st.schema.addIndex tn.n .none (names pkc) isPk none false with
+              | .error x => .error x
+              | .ok sch => .ok (st.index tn.n e.name (names pkc) isPk false sch)
+          match st1 with
           | .error x => .error x
-          | .ok sch =>
-            let st := st.setSchema sch
+          | .ok st =>
             let addIx (st : St d) (ix : IndexDecl) : Except Err (St d) :=
               if ix.isPk then .ok st
               else
@@ -491,7 +520,7 @@ def processEntity1 (D : Decls) (d : Dialect) (fuel : Nat) (st : St d) (e : Entit
                   | _ => .none
                 match st.schema.addIndex tn.n arg (indexColumns D st ix) .no (some ix.isUnique) false with
                 | .error x => .error x
-                | .ok sch => .ok (st.setSchema sch)
+                | .ok sch => .ok (st.index tn.n e.name (indexColumns D st ix) .no ix.isUnique sch)
             forM addIx st e.indexes
 
 /-- one attribute in the second loop (foreign keys and attribute indexes, core.py:1098-1134) -/
@@ -537,7 +566,7 @@ def processAttr2 (D : Decls) (d : Dialect) (st : St d) (e : Entity) (tname : Nam
       else
         match st.schema.addIndex tname a.index cols .no a.unique false with
         | .error x => .error x
-        | .ok sch => .ok (st.setSchema sch)
+        | .ok sch => .ok (st.index tname e.name cols .no (a.unique.getD false) sch)
 
 def processEntity2 (D : Decls) (d : Dialect) (st : St d) (e : Entity) : Except Err (St d) :=
   match lookup e.name st.entTable with
